@@ -25,9 +25,10 @@ RULE = ("case = ~500 operations: (a) for a contiguous slice of the enumerated (s
         "string_to_ms/secs calls on number x suffix x case x blank combinations; (e) 36 sections of 1-4 event entries "
         "(falsy None/0/0.0/False/''/{}/[], express scalars, device dicts, lists; plain, conditional, delayed and int "
         "event keys) through ConfigPlayer.validate_config of each of the 14 registered config players: every provided "
-        "event key is kept or the call raises.  distinct = set of "
+        "event key is kept or the call raises; (f) 12 sections validated twice with all optional settings omitted, the "
+        "first result's default containers poisoned in between (history dependence of defaults).  distinct = set of "
         "(op kind, validator family, value class, outcome) tuples of the case; non-trivial = type, completeness, "
-        "unknown-key, dropped-key, list-normalisation, config-player-keys, spec-unchanged and time oracles were each evaluated at least once")
+        "unknown-key, dropped-key, list-normalisation, config-player-keys, default-freshness, spec-unchanged and time oracles were each evaluated at least once")
 ASSUMPTIONS = [
     "any exception out of validate_config/string_to_ms/secs counts as rejection (statement: 'or rejects ... with an error')",
     "None is accepted as the value of any type when the input (or the spec default) is None/'none' (MPF's null), and "
@@ -45,6 +46,9 @@ ASSUMPTIONS = [
     "config players: ConfigPlayer.validate_config must keep every provided event key or raise; which falsy/express "
     "settings a player keeps and which it rejects is the player's business; kept settings are only type-checked "
     "against the player's spec section (+config_player_common) when they carry all keys of that spec (None accepted)",
+    "default_fresh: a section is validated twice with only its required keys given; between the two calls every "
+    "defaulted dict/list/set of the first result is written to in place; the second result's container must be a "
+    "different object without that write and of the original size (immutable defaults may be shared)",
     "dict-typed values whose keys collide after key normalisation (1 vs '1') are not judged as dropped keys: the "
     "statement's dropped-key clause is read as being about keys of the section",
     "colour component ranges and kivycolor lengths are not declared in the spec and are not demanded; gain is only "
@@ -68,7 +72,8 @@ TIERS = {
 }
 _MIN_QUICK = {"type": 450000, "range": 26000, "enum": 19000, "complete": 300000, "unknown_key": 1100,
               "dropped_key": 75000, "spec_unchanged": 110000, "time_direct": 5000, "time_validator": 30000,
-              "default": 300000, "machine": 4500, "list_norm": 20000, "player_keys": 15000, "player_typed": 2000}
+              "default": 300000, "machine": 4500, "list_norm": 20000, "player_keys": 15000, "player_typed": 2000,
+              "default_fresh": 4000}
 # about half of what a run on the unchanged tree evaluates (quick: 480 cases; thorough: 20x as many)
 MIN_EVALS = {"quick": _MIN_QUICK, "thorough": {k: v * 20 for k, v in _MIN_QUICK.items()}}
 SHRINK_KEYS = ["ops"]
@@ -79,6 +84,7 @@ SECTION_OPS = 14
 SYNTH_OPS = 40
 TIME_OPS = 60
 PLAYER_OPS = 36
+FRESH_OPS = 12
 PLAYERS = ["coil", "event", "blocking", "queue_event", "queue_relay", "flasher", "light", "random_event", "show",
            "variable", "segment_display_player", "hardware_sound_player", "score_queue_player", "blinkenlight"]
 
@@ -570,6 +576,11 @@ def gen_case(rng, tier, index):
                                       idx), None, True])
     for _ in range(TIME_OPS):
         ops.append(["time", rng.choice(["ms", "secs"]), time_value(rng)])
+    for _ in range(FRESH_OPS):
+        path = rng.choice(sections + [SYNTH_PATH])
+        base = base_for(path, idx) if rng.random() < 0.85 else None
+        # only the required keys are given: every other setting is filled in from its default, twice
+        ops.append(["fresh", path, section_source(rng, path, idx, base, p_opt=0.0), base])
     for _ in range(PLAYER_OPS):
         pairs = []
         for j in range(rng.choice([1, 1, 2, 3, 4])):
@@ -813,6 +824,65 @@ def run_case(case):
                                         "exact_ms": str(exact)}})
             continue
 
+        if kind == "fresh":
+            # defaults are filled in afresh for every validation: what one holder does to ITS default container
+            # (mpf code writes into such dicts in place) must not show up in the next config's default
+            _, path, raw, base = op
+            try:
+                spec = ref.merged(path, base)
+            except (KeyError, TypeError):
+                continue
+            bs = tuple(base) if isinstance(base, list) else base
+            src1 = dec(raw, host)
+            if not isinstance(src1, dict):
+                continue
+            given = set(src1)
+            src2 = copy.deepcopy(src1)
+            try:
+                r1 = cv.validate_config(path, src1, base_spec=bs)
+            except Exception:    # noqa  rejected (e.g. a required device does not exist): nothing to compare
+                shapes.add(("fresh", path.split(":")[0], "rej"))
+                continue
+            poison = "c12_poison"
+            before = {}
+            for k, v in list(r1.items()):
+                if k in given or k not in spec:
+                    continue
+                if type(v) is dict:
+                    before[k] = len(v)
+                    v[poison] = 1
+                elif type(v) is list:
+                    before[k] = len(v)
+                    v.append(poison)
+                elif type(v) is set:
+                    before[k] = len(v)
+                    v.add(poison)
+            try:
+                r2 = cv.validate_config(path, src2, base_spec=bs)
+            except Exception as e:    # noqa  the same source was accepted a moment ago
+                clauses["default_fresh"] = clauses.get("default_fresh", 0) + 1
+                viol.append({"clause": "default_fresh", "sig": "C12:second_validation_rejected",
+                             "detail": {"path": path, "base": base, "source": repr(src2)[:200], "exc": repr(e)[:300]}})
+                check_spec(path, base, "fresh " + path)
+                continue
+            shapes.add(("fresh", path.split(":")[0], "ok"))
+            for k, n in before.items():
+                clauses["default_fresh"] = clauses.get("default_fresh", 0) + 1
+                v2 = r2.get(k) if isinstance(r2, dict) else None
+                polluted = False
+                try:
+                    polluted = v2 is r1[k] or poison in v2 or len(v2) != n
+                except TypeError:
+                    polluted = True
+                if polluted:
+                    viol.append({"clause": "default_fresh", "sig": "C12:default_container_shared",
+                                 "detail": {"path": path, "base": base, "key": k, "spec": spec.get(k),
+                                            "first_result_after_holder_wrote_to_it": repr(r1[k])[:200],
+                                            "second_result": repr(v2)[:200],
+                                            "same_object": v2 is r1[k]}})
+            check_spec(path, base, "fresh " + path)
+            continue
+
         if kind == "player":
             _, pname, raw = op
             player = getattr(host["machine"], pname + "_player", None)
@@ -940,7 +1010,7 @@ def run_case(case):
         if v["sig"] not in seen:
             seen.add(v["sig"])
             uniq.append(v)
-    nontrivial = all(clauses.get(c, 0) > 0 for c in ("type", "complete", "unknown_key", "dropped_key", "list_norm", "player_keys",
+    nontrivial = all(clauses.get(c, 0) > 0 for c in ("type", "complete", "unknown_key", "dropped_key", "list_norm", "player_keys", "default_fresh",
                                                       "spec_unchanged", "time_direct"))
     import hashlib
     kinds = sorted(set(s[0] + ":" + str(s[2]) for s in shapes))
